@@ -25,7 +25,9 @@ CHECKS = {
         text='Histories of 2-5 stages writing subsets of a shared skeleton with !force/!weak on leaves, enclosing mappings or the root; the merged '
              'tree (Builder.build) and the evaluated config must carry, per leaf, the value of the highest-priority / latest writer, and the '
              'surviving nodes the union of all writers\' metadata with the winner\'s values. The oracle is independent of any merge model.',
-        note='Lists are atomic values; nested differing priority tags on one path are out of the stated domain.',
+        note='In the modelled family lists are atomic values. A fourth of the cases is the "wild" family (lists in lists, lists against mappings '
+             'and function nodes, every mix of priority and !del/!merge tags, 2-3 stages), checked with a validity predicate instead of a model: '
+             'every value the evaluated config or a recorded call holds was written by a stage, and none stands twice.',
         design='4/C03'),
     'C04': dict(
         technique='property-based differential testing (Hypothesis): five sub-domains with direct oracles (exact content, strictly-higher-priority survivors, key-/index-wise combination, !clear / value-less !del, protected list elements as a validity predicate)',
@@ -33,7 +35,8 @@ CHECKS = {
              'names): deleting focus leaves exactly its content (pruned !call nodes must not run), protected older entries survive exactly when '
              'strictly higher in priority, !merge combines key-/index-wise under the documented flag inheritance, !clear empties, value-less !del removes.',
         note='Direct per-sub-domain oracles instead of a full merge model; overlaps the statement leaves open are skipped and counted. '
-             'Sub-check (e) asserts the exact positions of protected and newer list elements (the former open finding there is repaired).',
+             'Sub-check (e) asserts the exact positions of protected and newer list elements (the former open finding there is repaired), also with '
+             'container elements and with a !del index mapping (negative keys, forced values) as the newer value.',
         design='4/C04'),
     'C05': dict(
         technique='property-based metamorphic testing (Hypothesis): build(D_i) vs build({k..: D_i}) vs build with unrelated sibling content vs build with keys renamed injectively, plus a frame relation against build(D_1..D_n-1)',
@@ -64,7 +67,8 @@ CHECKS = {
         text='Base configs with derived overriding documents carrying !notnew/!new on arbitrary nodes, and command-line strings built from existing '
              'or mutated paths (typos, bad indices, extra components); success is required exactly when every restricted path exists, the result '
              'must equal the fold (frame condition by full comparison), failures must be MergeError naming a missing path.',
-        note='Command-line values limited to scalars and flow lists; identifier keys.',
+        note='Command-line values limited to scalars and flow lists, optionally with a tag of their own; identifier keys; !notnew / !new / !force '
+             'typed in front of the name (only !new may create: then the result is compared with the base plus the path).',
         design='4/C08'),
     'C14': dict(
         technique='property-based differential testing (Hypothesis): AST-level fold with !required as opaque leaf over generated override/delete histories, recorder log for "nothing evaluated"',
